@@ -109,9 +109,13 @@ def _compare(X, sent, got, tname, who, plain=False):
                     X.fail(f"C26/{tn}/{fa[1]}/unreadable{sfx}", f"{s}[{i}] (type {tn}) field {fa[1]} of the forwarded record cannot be read: {fb[2]}")
                 if fa[0] == "name":
                     X.check(dnsref.name_eq(fa[2], fb[2]), f"C26/{tn}/{fa[1]}/name-changed{sfx}", f"{s}[{i}].{fa[1]}: {fa[2]} -> {fb[2]}")
-                else:
-                    X.check(_eq_items(fa[2], fb[2]), f"C26/{tn}/{fa[1]}/pointer-rewrite",
-                            f"{s}[{i}] (type {tn}) field {fa[1]}: octets changed in forwarding")
+                elif not _eq_items(fa[2], fb[2]):
+                    # the recorded defect rewrites octets that LOOK like a compression pointer (top two bits set); data without
+                    # such an octet that changes in forwarding is a different failure and gets its own key
+                    vals = fa[2] if isinstance(fa[2], (list, tuple)) else [(fa[2] >> (8 * k)) & 0xFF for k in range(fa[3] if len(fa) > 3 else 4)]
+                    lookalike = any(bool(v >= 0xC0) for v in vals)
+                    X.fail(f"C26/{tn}/{fa[1]}/" + ("pointer-rewrite" if lookalike else "octets-changed"),
+                           f"{s}[{i}] (type {tn}) field {fa[1]}: octets changed in forwarding")
             extra = b.fields[len(a.fields):]
             X.check(not extra and len(a.fields) == len(b.fields), f"C26/{tn}/rdata-layout", f"{s}[{i}] rdata layout changed: {extra[:1]}")
 
